@@ -122,6 +122,7 @@ CONFIGS = [
         argmode="mixed"),
     Cfg("ttl-m1", consts(3, 1, 1, False, 2, 3, 6, 2, "ok fail", warm=1), tiers=T, cap=4000),
     Cfg("cp-m1", consts(3, 1, NOTTL, True, 2, 3, 4, 0, "ok fail", warm=1, at="any"), tiers=T, cap=4000),
+    Cfg("ttl-ord", consts(2, 2, 1, False, 3, 2, 5, 1, "ok", warm=2), tiers=T, cap=3000),
     Cfg("cp-ttl", consts(2, 2, 1, True, 2, 3, 5, 1, "ok", warm=1), tiers=T, cap=3000),
     Cfg("sim-m2x", consts(4, 2, NOTTL, False, 3, 7, 12, 0, "ok fail cancel"), tiers=T, mode="sim", nsim=4000),
     Cfg("sim-m1cp", consts(4, 1, NOTTL, True, 3, 6, 10, 0, "ok fail cancel", at="any"), tiers=T, mode="sim",
@@ -134,7 +135,7 @@ CONFIGS = [
 REPRODUCE = [("f3-m1", "NoKeyErrorFinding", ("quick", "thorough")),
              ("f3-m1", "NoTwiceFinding", ("thorough",)),
              ("f3-m1", "NoRetentionFinding", ("thorough",)),
-             ("ttl-m2", "NoTtlOrderFinding", ("thorough",))]
+             ("ttl-ord", "NoTtlOrderFinding", ("thorough",))]
 
 RANDOM_KW = [
     {"maxsize": 2, "ttl": NOTTL, "always_cp": False, "argmode": "plain"},
@@ -284,7 +285,7 @@ def main(tier: str, seed: int) -> int:
                               "fin": finals.get(json.dumps(h, sort_keys=True)),
                               "src": f"{cfg.name}:{'simulate' if cfg.mode == 'sim' else 'graph'}"})
     nmodel = len(scenarios)
-    nrand = 400 if tier == "quick" else 12000
+    nrand = 400 if tier == "quick" else 8000
     for i in range(nrand):
         kw = RANDOM_KW[i % len(RANDOM_KW)]
         scenarios.append({"scn": random_scenario(rng, kw["ttl"] != NOTTL, rng.randint(6, 16)), "kw": kw,
